@@ -571,9 +571,18 @@ func (in *Interp) fmtObs(v Value, model map[string]uint64, memo map[*Term]uint64
 }
 
 func evalStr(s strV, model map[string]uint64, memo map[*Term]uint64) string {
-	b := make([]byte, len(s))
-	for i, t := range s {
-		b[i] = byte(t.eval(model, memo))
+	b := make([]byte, 0, len(s))
+	for _, t := range s {
+		if t.op == "dec" {
+			v := t.args[0].eval(model, memo)
+			if t.p1 == 1 {
+				b = append(b, strconv.FormatInt(int64(v), 10)...)
+			} else {
+				b = append(b, strconv.FormatUint(v, 10)...)
+			}
+			continue
+		}
+		b = append(b, byte(t.eval(model, memo)))
 	}
 	return string(b)
 }
